@@ -1,15 +1,16 @@
 // C02 — adaptive load shedder: sheds only when overloaded and over capacity.
 //
 // Three engines in one binary (see NOTES.md):
-//   (A) history engine  (history.go): explicit-state BFS over Allow/Pass/Fail/time-jump histories
-//       of the real shedder on the fake clock, three (window, buckets) configurations + a
-//       load.Disable() lane. The fake clock, the injected CPU answer and load.Disable() are
-//       process-global, so the search is sharded over worker processes (vlib.RunShards): one
-//       shard = (configuration, first operation), each running vlib.BFS below its prefix;
-//   (B) schedule engine (sched.go):   vx scenarios, 3 threads Allow→Pass|Fail under the controlled
-//       scheduler, conservation + "no shed while the CPU is never over";
-//   (C) wrappers        (wrappers.go): rest SheddingHandler and zrpc UnarySheddingInterceptor
-//       enumerated sequentially with a counting fake Shedder/Promise.
+//
+//	(A) history engine  (history.go): explicit-state BFS over Allow/Pass/Fail/time-jump histories
+//	    of the real shedder on the fake clock, three (window, buckets) configurations + a
+//	    load.Disable() lane. The fake clock, the injected CPU answer and load.Disable() are
+//	    process-global, so the search is sharded over worker processes (vlib.RunShards): one
+//	    shard = (configuration, first operation), each running vlib.BFS below its prefix;
+//	(B) schedule engine (sched.go):   vx scenarios, 3 threads Allow→Pass|Fail under the controlled
+//	    scheduler, conservation + "no shed while the CPU is never over";
+//	(C) wrappers        (wrappers.go): rest SheddingHandler and zrpc UnarySheddingInterceptor
+//	    enumerated sequentially with a counting fake Shedder/Promise.
 package main
 
 import (
@@ -18,7 +19,6 @@ import (
 	"fmt"
 	"os"
 	"runtime/debug"
-	"runtime/pprof"
 	"sort"
 	"strconv"
 	"strings"
@@ -231,7 +231,7 @@ func histShard(nShards int) func(name string, r *vlib.Report) {
 		bfs := &vlib.BFS[Op]{
 			Name:     name,
 			MaxDepth: depth,
-			MaxNodes: 4000000,
+			MaxNodes: 2500000,
 			Deadline: deadline,
 			Alphabet: func(d int, path []Op) []Op {
 				if d == 0 {
@@ -366,23 +366,6 @@ func main() {
 		return
 	}
 
-	if pfn := os.Getenv("VERIF_C02_BENCH"); pfn != "" { // experiments only: profile typical histories
-		c := histCfgs[0]
-		paths := [][]OpDef{
-			{{K: "allow"}, {K: "jump", D: 1}, {K: "pass"}, {K: "burst", N: 3}, {K: "jump", D: int64(c.interval())}, {K: "allow", Over: true}},
-			{{K: "burst", N: 20}, {K: "fail"}, {K: "fail"}, {K: "jump", D: 1}, {K: "passall"}, {K: "allow", Over: true}},
-			{{K: "macro", M: "warm-fast"}, {K: "allow", Over: true}, {K: "jump", D: 1}, {K: "pass"}, {K: "allow"}, {K: "allow", Over: true}},
-		}
-		pf, _ := os.Create(pfn)
-		pprof.StartCPUProfile(pf)
-		t0 := time.Now()
-		for i := 0; i < 60000; i++ {
-			runHistory(c, false, paths[i%3], false)
-		}
-		fmt.Println("per run:", time.Since(t0)/60000)
-		pprof.StopCPUProfile()
-		os.Exit(0)
-	}
 	hs := histShards(cfg)
 	if strings.HasPrefix(cfg.Shard, "hist|") {
 		vlib.RunShards(r, nil, histShard(len(hs))) // worker mode: runs the shard and exits
